@@ -208,6 +208,13 @@ func (r *FeatureLocal) addPendingApproval(msg *api.Message) {
 	ski := msg.DeviceRemote.Ski()
 	msgCounter := *msg.RequestHeader.MsgCounter
 
+	// a write that becomes pending has no approvals yet: what the callbacks said
+	// about an earlier write with this counter (timed out meanwhile, or repeated
+	// by the remote device) does not count for this one
+	r.muxWriteReceived.Lock()
+	delete(r.writeApprovalReceived[ski], msgCounter)
+	r.muxWriteReceived.Unlock()
+
 	// the timer is created and registered while the lock is held. Its callback
 	// needs the same lock first, so it can not run before the timer is registered
 	r.muxResponseCB.Lock()
